@@ -335,11 +335,15 @@ func (i *interpreter) symBinop(op token.Token, t types.Type, x, y value) value {
 		// division by a constant (not a power of two): quotient and remainder as auxiliary
 		// variables defined by x = q*c + r, instead of a division circuit
 		if b.IsConst() && !a.IsConst() && w >= 32 && b.Val&(b.Val-1) != 0 && !(signed && b.SignedVal() == -1) && i.path != nil && i.opts.Replay == nil {
-			q, r := i.divmodConst(a, b.Val, signed)
-			if op == token.QUO {
-				return norm(t, q)
+			// only the multiplication-free case (x = a*c + b divided by the same c); a generic
+			// quotient/remainder pair as auxiliary variables made pinned 19-digit conversions
+			// slower than the plain division circuit, so everything else keeps bvudiv/bvsdiv
+			if q, r, ok := i.divmodOfScaledSum(a, b.Val, signed); ok {
+				if op == token.QUO {
+					return norm(t, q)
+				}
+				return norm(t, r)
 			}
-			return norm(t, r)
 		}
 		var o smt.Op
 		switch {
